@@ -590,7 +590,13 @@ package classifier
 //@   modifies entries(c.dict.words), entries(c.dict.indices)
 //@   props C10 C04 C11
 //@
+//@ // C12: LoadLicenses adds exactly the files ending in "txt" that lie at depth
+//@ // >= 3 below dir, each under the first three segments of its path relative
+//@ // to dir (relPath: the lexical relative path, independent of the spelling of
+//@ // dir); shallower files and other suffixes are ignored.
+//@ spec allTxt(fs []string) bool = forall i int :: 0 <= i && i < len(fs) ==> hasSuffix(fs[i], "txt")
 //@ func (*Classifier).LoadLicenses$1
+//@   preserves allTxt(files)
 //@   ensures result == nil
 //@   ensures (err == nil && hasSuffix(path, "txt")) ==> len(files) == old(len(files)) + 1 && files[len(files)-1] == path
 //@   ensures !(err == nil && hasSuffix(path, "txt")) ==> same(files, old(files))
@@ -599,7 +605,9 @@ package classifier
 //@ func (*Classifier).LoadLicenses
 //@   requires wfClassifier(c)
 //@   ensures wfClassifier(c)
-//@   loop 1 invariant wfClassifier(c)
+//@   callreq AddContent requires hasSuffix(f, "txt") && sep == runeStr(47) && nsep(relPath(dir, f), sep) + 1 >= 3
+//@   callreq AddContent requires category == splitSeg(relPath(dir, f), sep, 0) && name == splitSeg(relPath(dir, f), sep, 1) && variant == splitSeg(relPath(dir, f), sep, 2)
+//@   loop 1 invariant wfClassifier(c) && allTxt(files)
 //@   props C12 C10
 //@
 //@ func (*Classifier).SetTraceConfiguration
